@@ -12,13 +12,14 @@ ASSUMPTIONS = ["before/after comparison uses only the library's accessors and wi
 NSHARDS = {"quick": 32, "thorough": 64}
 BUDGET_S = {"quick": 200, "thorough": 1800}
 MIN_HITS = {
-    'quick': {"tx": 1029, "coinbase_tx": 136, "ext_satoshis": 1320, "ext_locking": 1181, "sat_2^64-1": 81, "txin": 1894, "conditional": 1500, "empty_pushdata": 547},
+    'quick': {"tx": 1119, "coinbase_tx": 186, "ext_satoshis": 1438, "ext_locking": 1274, "sat_2^64-1": 95, "txin": 1950, "conditional": 1651, "empty_pushdata": 542},
     'thorough': {"tx": 115200, "coinbase_tx": 17504, "ext_satoshis": 154718, "ext_locking": 135599, "sat_2^64-1": 10357, "txin": 276223, "conditional": 181473, "empty_pushdata": 65158},
 }
 SATS = [0, 1, 2**53, 2**53 + 1, 2**63 - 1, 2**63, 2**64 - 2, 2**64 - 1, 0x0102030405060708]
 
 
 def cases(ctx):
+    yield from extra_cases(ctx)
     r = ctx.rnd
     t = ctx.tier == "thorough"
     # conditionals nested to increasing depth (the document formats nest one or two levels per conditional)
@@ -61,6 +62,32 @@ def cases(ctx):
             yield c
 
 
+LOGLENS = sorted(set([75, 76, 255, 256, 520, 521] + [v for k_ in range(9, 18) for v in (2**k_ - 1, 2**k_, 2**k_ + 1, 3 * 2 ** (k_ - 1))] + [100000]))
+
+
+def extra_cases(ctx):
+    """(a) data elements / coinbase scripts of log-spaced lengths (not only the classic boundaries: a window such as 2049..4096 lies
+    between them); (b) a run of REJECTED documents on the thread, then an ordinary round trip on the same thread"""
+    r = ctx.rnd
+    for li, L in enumerate(LOGLENS):
+        if li % ctx.nshards != ctx.shard % len(LOGLENS) and ctx.tier != "thorough":
+            if (li + 7) % ctx.nshards != ctx.shard:
+                continue
+        data = gen.rbytes(r, L)
+        push = wire.detok([gen.push_tok(r, 1, True)])[:0] + wire.minimal_push(data)
+        tx = gen.gen_tx(r, 1, 1, coinbase=False)
+        tx["ins"][0]["script"] = push
+        tx["outs"][0]["script"] = b"\x6a" + push
+        yield {"k": "tx", "tx": wire.tx_encode(tx).hex(), "ext": [{"locking": push.hex(), "satoshis": 5}], "loglen": L}
+        cb = gen.gen_tx(r, 1, 1, coinbase=True)
+        cb["ins"] = [gen.gen_txin(r, script=data, coinbase=True)]
+        yield {"k": "tx", "tx": wire.tx_encode(cb).hex(), "ext": [None], "loglen": L}
+    if ctx.shard % 4 == 0 or ctx.tier == "thorough":
+        tx = gen.gen_tx(r, 2, 2, coinbase=False, script_kw={"depth": 3, "n_tokens": 8, "p_if": 0.4})
+        tx["outs"][0]["script"] = nested_script(5, True)
+        yield {"k": "poison", "tx": wire.tx_encode(tx).hex(), "ext": [None, None], "n_bad": r.choice([4, 8, 40]), "bad_depth": r.choice([10, 40, 60])}
+
+
 def nested_script(depth, with_else):
     return b"\x63" * depth + b"\x51" + ((b"\x67\x52\x68" if with_else else b"\x68") * depth)
 
@@ -82,6 +109,31 @@ def diff(before, after):
 
 
 def judge(ctx, case):
+    if case["k"] == "poison":
+        # documents in the library's own schema whose innermost element is invalid, nested inside conditionals: each is rejected ...
+        ctx.hit("rejected_documents_then_round_trip")
+        pre, post = '{"code":"OP_IF","pass":[', '],"fail":null}'
+        d = case["bad_depth"]
+        for i in range(case["n_bad"]):
+            inner = ['"OP_NOT_AN_OPCODE"', '{"code":"OP_IF","pass":7,"fail":null}', '"zz"', "12"][i % 4]
+            sj = "[" + pre * d + inner + post * d + "]"
+            doc = '{"version":1,"inputs":[{"prev_tx_id":"%s","vout":0,"script_sig":%s,"sequence":1}],"outputs":[],"n_locktime":0}' % ("11" * 32, sj)
+            for which, body in (("tx_from_json_string", {"text": doc}), ("script_serde_json", {"text": sj})):
+                rq = {"op": "decode", "which": which}
+                rq.update(body)
+                ctx.call(rq)
+            # the same shape as CBOR
+            from .. import docmut
+            import json as _json, sys as _sys
+
+            _sys.setrecursionlimit(10000)
+            try:
+                cb = docmut.cbor(_json.loads(doc))
+                ctx.call({"op": "decode", "which": "tx_from_compact_bytes", "hex": cb.hex()})
+            except (ValueError, RecursionError):
+                pass
+        # ... and then an ordinary transaction with conditionals must still round-trip on this thread
+        case = dict(case, k="tx")
     if case["k"] == "tx":
         tx = wire.tx_decode(bytes.fromhex(case["tx"]))
         ctx.hit("tx")
@@ -90,6 +142,8 @@ def judge(ctx, case):
         cb = any(wire.is_coinbase_in(i) for i in tx["ins"])
         if cb:
             ctx.hit("coinbase_tx")
+        if "loglen" in case:
+            ctx.hit("log_spaced_element_length")
         for e in case["ext"]:
             if e and "satoshis" in e:
                 ctx.hit("ext_satoshis")
